@@ -167,13 +167,18 @@ PLAN = {
             'random': suite(COLL_KINDS + MERGE_KINDS, 150, 1500, 10, 100, profiles=('budget',))
                       + [rnd(k, 'small', 'starve', 60, 600) for k in COLL_KINDS + MERGE_KINDS]
                       + [rnd(k, 'real', 'starve', 17, 170) for k in ('fub', 'mb', 'mu')] + [rnd(k, 'real', 'starve', 4, 170) for k in ('fu', 'fob', 'fo')]
+                      + [rnd(k, 'small', 'starve', 40, 400) for k in JOIN_KINDS] + [rnd(k, 'real', 'starve', 6, 60) for k in JOIN_KINDS]
+                      + suite(ADAPT_KINDS + JOIN_KINDS, 80, 800, 6, 60)
                       + [rnd(k, 'small', 'churn', 30, 300) for k in ['fu', 'fo']]
                       + [rnd(k, 'real', 'manygroups', 8, 80) for k in ('fu', 'fo', 'mu')]},
     'C14': {'mc': mcs('fub', 'fub_b1', 'fu', 'mb', 'bu', thorough=('fub_c3', 'fu4', 'bu4')),
             'gen': [dict(GEN[n], tails=['quiet']) for n in ('fub', 'fu', 'mb', 'bu')],
             'random': suite(COLL_KINDS + MERGE_KINDS + ['bu', 'fe'], 200, 2000, 15, 150, profiles=('stale',))
                       + [rnd('fub', 'real', 'stale_big', 4, 20), rnd('fu', 'real', 'stale_big', 2, 10)]
-                      + [rnd(k, 'real', 'manygroups', 10, 100) for k in ('fu', 'fo', 'mu')]},
+                      + [rnd(k, 'real', 'manygroups', 10, 100) for k in ('fu', 'fo', 'mu')]
+                      + [rnd(k, 'small', 'mix', 120, 1200) for k in ('bo', 'tbu', 'tbo', 'ja', 'tja')]
+                      + [rnd(k, 'small', 'zerocap', 20, 200) for k in ('bu', 'bo', 'tbu', 'tbo')]
+                      + [rnd(k, 'small', 'orphans', 80, 800) for k in ALL_KINDS] + [rnd(k, 'real', 'orphans', 8, 80) for k in COLL_KINDS + MERGE_KINDS]},
     'C15': {'mc': mcs('fub', 'fub_init', 'fob', 'fo', 'fu', 'mb', thorough=('fub_c3', 'fu4', 'fob4c3')),
             'gen': gens('fub', 'fub_init', 'fob', 'fu'),
             'random': suite(COLL_KINDS + ['mb', 'mu'], 400, 4000, 40, 400)},
